@@ -913,9 +913,41 @@ func c16BackEnd(a Args, rng *rand.Rand, res *Result, cases []c16Case, replay *c1
 		c16TV(a, res, t2g, filepath.Join(base, fmt.Sprintf("tv%d", b)), progs, per, calls, &off)
 		os.RemoveAll(filepath.Join(base, fmt.Sprintf("tv%d", b)))
 	}
+	// -module-cycle lays the packages out by file and module: a dependent pair must still compile (compile only)
+	{
+		dep := c16TvProgram(rng, 9000, c16GenOpt{Compilable: true, Small: true}, nil)
+		for !c16HasTypes(dep.Mod) {
+			dep = c16TvProgram(rng, 9000, c16GenOpt{Compilable: true, Small: true}, nil)
+		}
+		use := c16TvProgram(rng, 9001, c16GenOpt{Compilable: true, Small: true, IdBase: 100}, dep)
+		c16CompileOnly(res, t2g, filepath.Join(base, "tvcycle"), []*c16Prog{dep, use}, []string{"-module-cycle"})
+	}
 	res.Stats["tv_wall_s"] = time.Since(t1).Seconds()
 	res.Evaluations += idx
 	c16Bindings(a, res, t2g, filepath.Join(base, "bind"))
+}
+
+// c16CompileOnly: the last program (which includes the others) through tars2go with the flags, then go build
+func c16CompileOnly(res *Result, t2g string, dir string, progs []*c16Prog, flags []string) {
+	os.MkdirAll(dir, 0o755)
+	c16WriteModule(dir)
+	for _, p := range progs {
+		os.WriteFile(filepath.Join(dir, p.Mod.Name+".tars"), []byte(p.Text), 0o644)
+	}
+	last := progs[len(progs)-1]
+	last.Flags = flags
+	args := append(append([]string{"-outdir", "gen", "-module", "c16tv"}, flags...), last.Mod.Name+".tars")
+	out, code, to := c16Run(dir, 30000, nil, t2g, args...)
+	tc := c16TvCase(last)
+	tc.Msg = strings.Join(flags, " ") + " (includes " + progs[0].Mod.Name + ".tars: " + c16Trunc(progs[0].Text, 600) + ")"
+	if to || code != 0 {
+		res.Failures = append(res.Failures, Failure{Sig: "tars2go/gen/rejects-valid-program/" + c16DiagClass(out), Desc: fmt.Sprintf("tars2go %s exits %d (timeout %v) on a valid program: %s", strings.Join(flags, " "), code, to, c16Trunc(c16LastLine(out), 300)), Replay: tc})
+		return
+	}
+	o, c, _ := c16Run(dir, 600000, c16GoEnv(), "go", "build", "./gen/...")
+	if c != 0 {
+		res.Failures = append(res.Failures, Failure{Sig: "tars2go/gen/does-not-compile/" + c16CompileClass(o), Desc: fmt.Sprintf("the Go code generated with %s for a valid program does not compile: %s", strings.Join(flags, " "), c16Trunc(c16FirstError(o), 400)), Replay: tc})
+	}
 }
 
 // replay of a translation-validation finding: the program text alone (declarations are recovered from the
